@@ -79,7 +79,7 @@ Lemma clean_all_acct : forall bk st b c st' b' c',
 Proof.
   induction bk; simpl; intros st b c st' b' c' H.
   - inversion H; subst; auto.
-  - apply IHbk in H. destruct H as [A L]. split; [rewrite A|rewrite L]; reflexivity.
+  - apply IHbk in H. destruct H as [A L]. rewrite clean_cache_v_repaired in A, L. split; [rewrite A|rewrite L]; reflexivity.
 Qed.
 
 Theorem cleanup_pass_bound st st' r :
